@@ -12,7 +12,8 @@ EVIDENCE_DIR = os.path.join(VERIF, "evidence")
 REPLAY_DIR = os.path.join(VERIF, "replays")
 KNOWN_FILE = os.path.join(VERIF, "known_findings.json")
 
-MAX_VIOL_KEPT = 40
+MAX_VIOL_KEPT = 400
+PER_KEY_KEPT = 6
 
 
 def jhash(obj):
@@ -46,6 +47,7 @@ class Ctx:
         self.harness_errors = []
         self.inconclusive = []
         self.case = None  # case being executed (for violate())
+        self._vkeys = {}
 
     # --- recording -------------------------------------------------------
     def ev(self, clause, n=1):
@@ -53,7 +55,10 @@ class Ctx:
 
     def violate(self, clause, detail, case=None):
         self.n_violations += 1
-        if len(self.violations) < MAX_VIOL_KEPT:
+        key = "%s|%s" % (clause, (detail or {}).get("kind") if isinstance(detail, dict) else "")
+        self._vkeys[key] = self._vkeys.get(key, 0) + 1
+        # keep a bounded number per (clause, kind) so that a flood of one mechanism cannot hide another
+        if self._vkeys[key] <= PER_KEY_KEPT and len(self.violations) < MAX_VIOL_KEPT:
             self.violations.append(
                 {
                     "clause": clause,
@@ -94,6 +99,7 @@ class Ctx:
             "clauses": self.clauses,
             "violations": self.violations,
             "n_violations": self.n_violations,
+            "vkeys": self._vkeys,
             "observed": {k: sorted(v) for k, v in self.observed.items()},
             "hist": self.hist,
             "distinct": sorted(self.distinct),
@@ -110,6 +116,8 @@ class Ctx:
             if len(self.violations) < MAX_VIOL_KEPT * 4:
                 self.violations.append(v)
         self.n_violations += d["n_violations"]
+        for k, n in d.get("vkeys", {}).items():
+            self._vkeys[k] = self._vkeys.get(k, 0) + n
         for k, v in d["observed"].items():
             self.observed.setdefault(k, set()).update(v)
         for k, h in d["hist"].items():
